@@ -45,8 +45,9 @@ CHECKS = {
               "deductive contracts (pyvc/z3) for the mesh occurrence listing and the adjacency encoding + bounded run-time contracts vs region/adjacency definitions"),
     "C04": _c("exploration",
               "Deductive (unbounded, from the real AST): the six Perm symmetries and the four MeshPatt symmetries against the geometric maps incl. bijectivity "
-              "(ghost inverse witnesses), and the dihedral relations r^a r^b = r^(a+b) for all integers, s^2 = e, s r s = r^-1, commutation with get_perm as lemmas over "
-              "the contracts. Bounded: equivariance of the real containment search, orbit helpers, lex_min, CLI.", _BNOTE,
+              "(ghost inverse witnesses), the dihedral relations r^a r^b = r^(a+b) for all integers, s^2 = e, s r s = r^-1, commutation with get_perm, and 'q contains p "
+              "iff g.q contains g.p' for classical patterns and the generators reverse / complement / inverse (explicit maps on occurrences) as lemmas over "
+              "the contracts. Bounded: equivariance of the real search for mesh patterns and all eight maps, orbit helpers, lex_min, CLI.", _BNOTE,
               "deductive contracts + lemmas (pyvc/z3) for the maps and group laws; bounded run-time contracts for equivariance and set helpers"),
     "C05": _c("exploration",
               "Deductive: the greedy pruning (Basis._pruner, MeshBasis._pruner) over an abstract containment preorder yields a sub-list that is an antichain and covers every "
